@@ -629,8 +629,6 @@ class Verifier:
         stmts = []
         for c in list(self.reg.contracts.values()) + list(self.reg.variants) + list(self.reg.assumed):
             stmts += list(c.effects)
-            for cls in c.asserts.values():      # ghost statements run at cut points (`asserts={"x": ["ghost:..."]}`)
-                stmts += [x[6:] for x in cls if x.startswith("ghost:")]
             for fc in c.funcs.values():
                 stmts += list(getattr(fc, "effects", [])) + list(getattr(fc, "effects_before", [])) + list(getattr(fc, "effects_exc", []))
         for t in self.types.named.values():
@@ -651,6 +649,37 @@ class Verifier:
                     out.add(r)
         self._gwn = out
         return out
+
+    def ghost_cut_writes(self, c):
+        """ghost variables written by the `ghost:` statements of contract c's cut points: {cut key: {names}}
+        (assignments, mutator calls, and the first argument of the ghost builtin map_set_all)"""
+        cache = getattr(self, "_gcw", None)
+        if cache is None:
+            cache = self._gcw = {}
+        if id(c) not in cache:
+            from .modset import body_mods, _root
+            out = {}
+            for key, cls in c.asserts.items():
+                names = set()
+                for cl in cls:
+                    if not cl.startswith("ghost:"):
+                        continue
+                    body = ast.parse(cl[6:].strip()).body
+                    ns, paths, calls = body_mods(body)
+                    names |= ns
+                    for p in paths:
+                        r = _root(p)
+                        if r:
+                            names.add(r)
+                    for call in calls:
+                        if isinstance(call.func, ast.Name) and call.func.id == "map_set_all" and call.args:
+                            r = _root(call.args[0])
+                            if r:
+                                names.add(r)
+                if names:
+                    out[key] = names
+            cache[id(c)] = out
+        return cache[id(c)]
 
     # ---------------------------------------------------------------- contracts lookup
     def contract_for_call(self, f, I):
